@@ -232,6 +232,7 @@ var trees = []tree{
 	{"f": "", "d/g": "yy"},
 	{"d/e/f": "xyz", "d/g": "", "h": big(5000)},
 	{"e/": "", "f": "x"},
+	{"big": big(70 * 1024), "d/small": "s"}, // larger than io.Copy's 32 KiB transfer buffer: several Read/Write rounds
 }
 
 func build(fs filesystem.Filespace, t tree) error {
@@ -720,7 +721,7 @@ func replay(wj json.RawMessage) (*fw.Violation, error) {
 
 func init() {
 	fw.Register(&fw.Check{ID: "C04", Level: "fault_enumeration",
-		Rule: "streams: backends{mem,disk,enc-mem,enc-disk,cache-mem} x contents{'', 'x', 'xyz', 5KiB} x every split into <=3 chunks (incl. empty chunks; fixed cut points for the long content) x previous destination{absent,empty,shorter,longer,equal,directory} x read buffers{1,2,3,4096}; copy helpers {fshelper.Copy, Copier.Do(dir), Copier.Do(file), StreamCopy} x 4 tree shapes x all 25 source/destination backend pairs, fault-free and with EVERY single numbered call (open/Read/Write/Close/MkdirAll/ReadDir/IsFile/IsDir/Filespace, on source and destination; error and short-write variants) failing, for encrypted backends also with the failing layer below the encryption; thorough adds every pair of failing calls (memory) and preemption bound 2 for the concurrent tree copy. distinct = cases; all run the real code",
+		Rule: "streams: backends{mem,disk,enc-mem,enc-disk,cache-mem} x contents{'', 'x', 'xyz', 5KiB} x every split into <=3 chunks (incl. empty chunks; fixed cut points for the long content) x previous destination{absent,empty,shorter,longer,equal,directory} x read buffers{1,2,3,4096}; copy helpers {fshelper.Copy, Copier.Do(dir), Copier.Do(file), StreamCopy} x 5 tree shapes (one with a 70 KiB file, i.e. several rounds of the 32 KiB copy loop) x all 25 source/destination backend pairs, fault-free and with EVERY single numbered call (open/Read/Write/Close/MkdirAll/ReadDir/IsFile/IsDir/Filespace, on source and destination; error and short-write variants) failing, for encrypted backends also with the failing layer below the encryption; thorough adds every pair of failing calls (memory) and preemption bound 2 for the concurrent tree copy. distinct = cases; all run the real code",
 		Run: run, Replay: replay,
 		Assumptions: []string{"fault positions are the calls crossing the Filespace/Reader/Writer interfaces (harness-side wrapper)", "a bool query 'fails' by answering false", "fshelper.Copy runs under the controlled scheduler: default schedule for the fault sweep, bounded preemptions for the fault-free case"}})
 }
